@@ -122,9 +122,15 @@ def check(case):
                 (int(with_defaults(ast, pe[0])[PART_FIELD[p]]) if p == "BLD" else with_defaults(ast, pe[0])[PART_FIELD[p]])
                 == (int(E[PART_FIELD[p]]) if p == "BLD" else E[PART_FIELD[p]]) for p in parts)
             greater = pep440ref.key(want) > pep440ref.key(case["old"])
+            if reads_back and greater and not E_final_num and why in ("unchanged", "gate-not-greater"):
+                # bumpver computed a version that is equal to / not greater than the old one although the README rules
+                # give a readable, strictly greater one: the parts it computed are not the prescribed ones
+                return viol("declined-although-readme-rules-give-a-greater-version:" + why,
+                            {"flags": sorted(k for k in bv.FLAG_NAMES if flags[k]) + (["tag"] if flags["tag"] else []), "why": why},
+                            {"args": cli_args(case), "expected": want, "res": res.summary(400)}, nt=nt, classes=tuple(classes))
             if reads_back and greater and not E_final_num and why != "tag-num-on-final":
-                # No property demands that a bump succeeds (C05 constrains the bumped version, C01 the exit
-                # status): counted so that a check that has gone vacuous is visible, never reported.
+                # other refusals (e.g. the gate rejecting a week-53 rendering, finding F1 of C02) are counted, not reported:
+                # no property demands that every bump succeeds
                 classes.append("declined-though-model-valid:" + why)
             else:
                 classes.append("declined-model-differs:" + ("not-greater" if not greater else "not-readable" if not reads_back else "tag-num-final"))
